@@ -327,9 +327,25 @@ func (e *Engine) freshValue(st *State, name string, t types.Type) Value {
 // assumeTyped adds the range assumption of an integer-typed scalar.
 func (e *Engine) assumeTyped(st *State, v Term, t types.Type) {
 	if _, ok := e.opaqueSort(t); ok {
+		// atomic integer wrappers carry the range of their payload
+		bounds := map[string][2]string{
+			"go.uber.org/atomic.Int64":  {"(- 9223372036854775808)", "9223372036854775807"},
+			"go.uber.org/atomic.Uint64": {"0", "18446744073709551615"},
+			"go.uber.org/atomic.Int32":  {"(- 2147483648)", "2147483647"},
+			"go.uber.org/atomic.Uint32": {"0", "4294967295"},
+		}
+		if b, ok := bounds[types.TypeString(t, nil)]; ok {
+			st.assume(And(Le(T(b[0], SInt), v), Le(v, T(b[1], SInt))))
+		}
 		return
 	}
 	switch u := t.Underlying().(type) {
+	case *types.Chan:
+		e.assumeRef(st, v)
+		// channels of different types are different objects
+		f := e.ctx.Func("chanTypeOf", []*Sort{SInt}, SInt)
+		st.assume(Implies(Neq(v, IntLit(0)), Eq(T("("+f+" "+v.S+")", SInt), e.typeTag(t))))
+		return
 	case *types.Basic:
 		if u.Info()&types.IsInteger != 0 {
 			lo, hi := intBounds(t)
@@ -338,7 +354,7 @@ func (e *Engine) assumeTyped(st *State, v Term, t types.Type) {
 		if u.Info()&types.IsString != 0 {
 			e.strFacts(st, v)
 		}
-	case *types.Map, *types.Chan:
+	case *types.Map:
 		e.assumeRef(st, v)
 	}
 }
